@@ -338,12 +338,19 @@ fn file_cases(args: &Args, rep: &mut Report) {
     // a loop block device (st_size 0, length only known through seeking) and real EINTR on FIFO reads
     crate::c11x::block_device_case(&dir, &mut rng, rep, three_way);
     crate::c11x::eintr_storm_cases(&dir, &mut rng, rep, args.thorough);
+    crate::c11x::pty_fault_cases(&mut rng, rep);
+    crate::c11x::other_user_case(&mut rng, rep);
+    crate::c11x::address_space_limit_case(&dir, &mut rng, rep);
     let _ = std::fs::remove_dir_all(&dir);
 }
 
 pub fn run(args: &Args) -> Report {
     let total = args.n(20_000, 600_000);
     let plats = args.platforms_or(&[P::Native, P::Portable]);
+    #[cfg(feature = "full")]
+    if let Some(kind) = args.get("child") {
+        crate::c11x::child_main(kind, args.get("paths").unwrap_or(""), three_way);
+    }
     if args.get("files-only") == Some("1") {
         let mut rep = Report::new();
         #[cfg(feature = "full")]
